@@ -202,7 +202,7 @@ CLAIMS: dict[str, tuple[str, str, str, str]] = {
         "`lblock`, 3.5k/100k documents). On the inline side the contracts are relative to pos < posMax <= len(src) and proved for "
         "text, newline, escape and backticks (closer cache and whole-source search included), giving imini_total for that inline "
         "sub-parser under every rule subset (Props/C01e.lean; tie: `inline`); emini_total (Props/C01f.lean) adds the emphasis rule with "
-        "balance_pairs and its post-processing, for every classification of punctuation and white space. "
+        "balance_pairs and its post-processing, smini_total the strikethrough rule as well, for every classification of punctuation and white space. "
         "MISSING: for the other rules (table, reference, html_block, lheading, most inline rules) the "
         "contracts stay hypotheses, monitored on every "
         "call of every real rule (harness/monitor.py, ~47k rule calls per quick run); renderer/CLI totality "
